@@ -83,6 +83,15 @@ CHECKS["C13"] = dict(
     note="Integer data; bound differences may be absent only if no variable bound is finite.",
     design="4 (C13)")
 
+CHECKS["C07"] = dict(
+    text="ScipyBackend.tla models the plug-in as a server of callables for an arbitrary client; TLC checks value-at-requested-point, "
+         "never-evaluated-twice, no gradients for gradient-free classes and the split clauses for every request sequence (length 3; "
+         "thorough 4) x parameters, and exhibits the as-is counterexample with CheckPoint=FALSE; every sequence is driven through the "
+         "real plug-in by a scripted SciPy client (speculative on/off pair), plus population batches, longer histories and recordings "
+         "of real SLSQP/L-BFGS-B/TNC/BFGS/COBYLA/Nelder-Mead/Powell/DE runs, all judged by the Trace_C07 monitor.",
+    note="Bounded sequences over a pool of well separated points; returned gradients attributed to points within 0.5.",
+    design="4 (C07)")
+
 NOT_APPLICABLE = {}
 
 def main():
